@@ -276,6 +276,9 @@ func (w *World) onApplied(n *Node, e *blockEntry, au consensus.ApplyUpdate, firs
 	if w.fatal {
 		return
 	}
+	if first {
+		w.apiBlock(n, e)
+	}
 	if l := w.ledgers[e.id]; l != nil && first {
 		for _, r := range l.Resolved {
 			era := ""
